@@ -11,3 +11,5 @@ open Gossamer.C33
 #print axioms steps_ok
 #print axioms unmarshal_reencode
 #print axioms goParse_encFields
+#print axioms C33_steps_linear_bresp
+#print axioms goParse_size
